@@ -1,11 +1,22 @@
 #!/usr/bin/env python3
-"""MANIFEST.setup_cmd: build the asmjit flavours and all harness binaries from /repo's working tree (offline)."""
+"""MANIFEST.setup_cmd: build the asmjit flavours and the harness binaries from /repo's working tree (offline).
+Every check rebuilds what it needs itself (incrementally), so a harness that fails to build here is only reported:
+the check that owns it will fail on its own."""
 import glob, os, sys
 HERE = os.path.dirname(os.path.abspath(__file__))
 sys.path.insert(0, HERE)
 import build
-names = [os.path.splitext(os.path.basename(s))[0] for s in glob.glob(os.path.join(build.VERIF, "harness", "*.cpp"))]
+names = sorted(os.path.splitext(os.path.basename(s))[0] for s in glob.glob(os.path.join(build.VERIF, "harness", "*.cpp")))
+names = [n for n in names if not n.startswith("lib_")]
 for fl in ("plain", "asan"):
-    build.build(fl, names, quiet=False)
-build.build("tsan", ["jitconc"], quiet=False)
+    build.build(fl, None, quiet=False)
+    for n in names:
+        try:
+            build.build(fl, [n], quiet=True)
+        except Exception as e:
+            print(f"[setup] WARNING: {fl}/{n} did not build: {e}")
+try:
+    build.build("tsan", ["jitconc"], quiet=False)
+except Exception as e:
+    print(f"[setup] WARNING: tsan/jitconc did not build: {e}")
 print("setup ok")
